@@ -76,4 +76,5 @@ def run(chk, prog):
     # distributions (BWD-OLDVALUES, shared with C05 / C06)
     # the forward proposal score is proposal.propose(...)'s score: the derived method, defined once as the score of one simulate (C38's rules on it)
     take(chk, prog, "C38", lambda o: o["instance"] in ("GenerativeFunction.propose", "GenerativeFunction/derived-methods"), "propose is the inherited derived method (from C38)", 2)
+    take(chk, prog, "C13", lambda o: o["rule"] == "BWD-SELECT", "the discard of a switch model comes from the branch the trace had (from C13)", 1)
     take(chk, prog, "C05", lambda o: o["rule"] == "BWD-OLDVALUES" and o["instance"].startswith("Distribution."), "discard obligations of Distribution edits (from C05)", 2)
